@@ -41,8 +41,8 @@ type eoKey struct {
 }
 
 type eoOutcome struct {
-	Stray       []mon.Event          // frames received with no outstanding request on that stream (duplicates included)
-	Outstanding map[eoKey]mon.Event  // requests sent and not answered (yet)
+	Stray       []mon.Event         // frames received with no outstanding request on that stream (duplicates included)
+	Outstanding map[eoKey]mon.Event // requests sent and not answered (yet)
 	Answered    int
 	BadDir      []mon.Event // reply frames without the response bit / with a request opcode
 }
@@ -82,7 +82,9 @@ func exactlyOnce(events []mon.Event, closedClients map[int]bool) eoOutcome {
 	return out
 }
 
-func opName(op int) string { return strings.TrimPrefix(strings.Fields(primitive.OpCode(op).String())[1], "") }
+func opName(op int) string {
+	return strings.TrimPrefix(strings.Fields(primitive.OpCode(op).String())[1], "")
+}
 
 // drain applies the bounded-progress rule: kill silent connections (premise), run OPTIONS round trips on every client
 // with outstanding requests, and decide "lost" when nothing moves although the premise holds. It reports violations.
@@ -291,10 +293,10 @@ func prepareText(body []byte) string {
 
 type stormParams struct {
 	Hosts, Conns, Clients, PerClient, Window int
-	Silence                                   bool // ConnLost as silence + later kill instead of an immediate drop
-	Compress                                  bool
-	SameStreams                               bool // every client uses the same stream ids 0,1,2,... (C02)
-	DeathRate                                 int  // per-mille probability of a connection-loss outcome
+	Silence                                  bool // ConnLost as silence + later kill instead of an immediate drop
+	Compress                                 bool
+	SameStreams                              bool // every client uses the same stream ids 0,1,2,... (C02)
+	DeathRate                                int  // per-mille probability of a connection-loss outcome
 }
 
 func (p stormParams) String() string {
@@ -826,7 +828,7 @@ func runC01(c *Ctx) {
 		{Hosts: 4, Conns: 1, Clients: 16, PerClient: 300, Window: 150, DeathRate: 8, Silence: true, Compress: true},
 	}
 	if !c.Quick() {
-		for k := 0; k < 28; k++ {
+		for k := 0; k < 236; k++ {
 			rng := c.Rng(1000 + k)
 			storms = append(storms, stormParams{Hosts: 1 + rng.Intn(4), Conns: 1 + rng.Intn(2), Clients: 1 + rng.Intn(16), PerClient: 500 + rng.Intn(1500),
 				Window: 50 + rng.Intn(1950), DeathRate: rng.Intn(25), Silence: rng.Intn(2) == 0, Compress: rng.Intn(2) == 0})
@@ -868,21 +870,21 @@ func runC01(c *Ctx) {
 	}
 
 	// 3. unhooked mass deaths
-	for j := 0; j < c.Pick(5, 40); j++ {
+	for j := 0; j < c.Pick(5, 300); j++ {
 		k := next()
 		if c.Mine(k) {
 			massDeath(c, j, 2+j%3, 1500+(j%3)*250)
 		}
 	}
 	// 3b. connection deaths racing with senders
-	for j := 0; j < c.Pick(4, 40); j++ {
+	for j := 0; j < c.Pick(4, 240); j++ {
 		k := next()
 		if c.Mine(k) {
 			killUnderFire(c, j, 24+8*(j%2), c.Pick(250, 600))
 		}
 	}
 	// 4. exhaustion
-	for j := 0; j < c.Pick(2, 12); j++ {
+	for j := 0; j < c.Pick(2, 60); j++ {
 		k := next()
 		if c.Mine(k) {
 			exhaustion(c, j)
